@@ -7,12 +7,13 @@ OBLIGATIONS.append(ob('C10.orderby.position.rejected', 'verif_frag::orderby::c05
 OBLIGATIONS.append(ob('C10.orderby.desc.rejected', 'verif_frag::orderby::c05_desc', 'a DESC that follows no key is a parse error (DESC arm of parse_order_by)', units=['orderby_arms'], complete=False, bound='<= 3 keys'))
 PARSER_FNS = ['next_lexem', 'drop_lexem', 'there_are_remaining_lexems', 'parse_where', 'parse_expr', 'parse_and',
               'parse_cond', 'parse_add_sub', 'parse_mul_div', 'parse_paren', 'parse_func_scalar', 'parse_function',
-              'parse_group_by', 'parse_order_by', 'parse_limit', 'parse_output_format', 'negate_expr_op']
+              'parse_group_by', 'parse_order_by', 'parse_limit', 'parse_output_format', 'negate_expr_op', 'parse_root_options', 'parse_fields']
 for f in PARSER_FNS:
     OBLIGATIONS.append(dict(id=f'C10.parser.nopanic.{f}', engine='V', verus_fn='Parser::' + f, complete=True, bound=None, units=[],
                             desc=f'Parser::{f} (real body, extracted verbatim): no unwrap on None/Err, no index out of range, no usize '
-                                 f'underflow/overflow, for every token vector and cursor; callees by contract (cursor frame, Ok => Some)',
+                                 f'underflow/overflow, and TERMINATION (decreases: tokens left, then recursion level; every loop consumes a token), '
+                                 f'for every token vector and cursor; callees by contract (cursor frame, Ok => Some, Ok => progress)',
                             harness='verus:Parser::' + f, tier='quick'))
 CANARIES = []
-ASSUMPTIONS = ['termination is not proved (exec_allows_no_decreases_clause)']
-NOT_COVERED = ['parse_fields, parse_roots, parse_root_options, Parser::parse, the lexer (not under contract)', 'termination / no hang', 'evaluator-side literal errors other than booleans (regex, dates)', 'process-level behaviour']
+ASSUMPTIONS = ['termination is proved for the 19 parser methods under contract only', 'is_root_option_keyword is trusted (external_body: string prefix tests, total)']
+NOT_COVERED = ['parse_roots, Parser::parse, the lexer (not under contract)', 'termination of the lexer, of parse_roots and of the search itself', 'evaluator-side literal errors other than booleans (regex, dates)', 'process-level behaviour']
